@@ -296,6 +296,15 @@ func (i *insertOnUpdateExecutor) buildBeforeImageSQLParameters(insertStmt *ast.I
 				objects := args[placeHolderIndex]
 				parameterMap[columnName] = append(parameterMap[columnName], objects)
 				placeHolderIndex++
+			} else if inside, ok := val.(paramsInside); ok {
+				// an expression over arguments of the statement: its value is the database's to compute, the
+				// arguments of the values after it are that many further on
+				placeHolderIndex += int(inside)
+				parameterMap[columnName] = append(parameterMap[columnName], driver.NamedValue{
+					Ordinal: i + 1,
+					Name:    columnName,
+					Value:   ast.FuncCallExpr{},
+				})
 			} else {
 				parameterMap[columnName] = append(parameterMap[columnName], driver.NamedValue{
 					Ordinal: i + 1,
